@@ -53,6 +53,11 @@ CHECKS = {
   text="For all counters, journals, CompIDs, message contents and histories: sends other than Logon/Logout before the Logon exchange are refused with the connection exactly unchanged (prelogon_send_refused); in NETWORK_CONN_ESTABLISHED / LOGON_INITIAL_SENT no frame is delivered and a first non-Logon frame drops the connection with nothing written and counters/journal untouched (prelogon_no_delivery, prelogon_first_frame_dropped); each integrity defect (BeginString wrong, CompIDs missing / wrong / swapped, MsgSeqNum missing / non-numeric / too low) leads to no delivery, unchanged inbound counter, DISCONNECTED_BROKEN_CONN, and exactly one Logout carrying the reason iff the counterparty is identifiable (integrity_defect_logout / _unidentifiable); after any disconnect no frame, callback or state change until the next connect, for every history (after_disconnect_silent); every transition into a disconnected state emits exactly one onDisconnect (disconnect_once_step; history version under the hypothesis that connect() is only called when disconnected). Documented tolerance in the statements: SequenceReset and PossDup duplicates while awaiting a resend are exempt from 'too low'.",
   ref="DESIGN.md §6 C11",
   note=DEFAULT_NOTE + " Uniformity of the code in the counter values is sampled (5 counter pairs incl. >= 2^32); application hooks return normally and do not re-enter."),
+ "C18": dict(
+  technique="Lean 4 proofs (refinement of the container model to an insertion-ordered reference map by induction over operation lists) + step-by-step differential correspondence (reply and full state after every operation) + exhaustive code-point comparison of the int(str) model",
+  text="Theorems for all containers and all operation sequences about the hand-written mirror of message.py: refinement to an ordered reference map incl. exception kinds (refines_reference_map), get-after-set independent of tag spelling (int / str(int) / FTag member), refused duplicate leaves the container unchanged, replacement keeps position, first-insertion order preserved through any history, every mutator refuses non-integer tags (nonint_tag_refused, tags_intlike_invariant), add_group = Python list.insert with -1 = append, group accessor results and complete error kinds (no IndexError / AttributeError), pickle identity, container equality <-> same content for ALL containers (eq_iff_same_content), dict equality <-> same content ignoring the four framing tags and never raising on plain containers (eqDict_iff, eqDict_total). Only remaining partial: get_after_set for non-canonical tag spellings ('01', ' 1', '+1', '1_0' are distinct keys from 1) - open finding C18-noncanonical-tag-distinct-key, no small repair. Model compared with FIXContainer/FIXMessage after every operation of 4,000 (thorough 40,000) random sequences and on all code points for int().",
+  ref="DESIGN.md §6 C18",
+  note="Trusted: Lean kernel; the hand-written model and Python-object abstraction (str()/int()/is-class), tied by differential testing only; CPython character tables regenerated each run; aliasing, FIXMessage group items and >4300-digit ints outside the model; atomicity of raising ops is structural in the model and checked on the implementation by state comparison."),
 }
 NOT_YET = "check under construction in this build round (model and theorems planned in DESIGN.md §6); not yet claimed"
 
